@@ -14,3 +14,9 @@ func itoa(i int) string { return strconv.Itoa(i) }
 func genAnyDocProject(t *rapid.T) vlib.Project {
 	return vlib.Single(vlib.GenMacroDoc(t))
 }
+
+// c19Docs is the document part of C19 (filled in with the document model).
+var c19Docs = func(h *vlib.H) {}
+
+// c08Docs is the document part of C08 (filled in with the document model).
+var c08Docs = func(h *vlib.H) {}
